@@ -4,7 +4,7 @@ from concurrent.futures import ThreadPoolExecutor
 from .. import common, gen, attr
 
 # lints that concern the harness's own items (types never used, helper imports), not the generated impls
-BENIGN_LINTS = {"dead_code", "unused_imports", "non_camel_case_types", "non_snake_case", "non_upper_case_globals", "unused_macros"}
+BENIGN_LINTS = {"dead_code", "unused_imports", "unused_parens", "non_camel_case_types", "non_snake_case", "non_upper_case_globals", "unused_macros"}
 
 
 def plugin_pools(rng, per_plugin):
